@@ -2,7 +2,7 @@ import os, sys
 sys.path.insert(0, os.path.dirname(os.path.abspath(__file__)))
 import win, vlib
 
-ASSUME = ["window output buffer never overflows", "single producer", "IDLETIMEOUT unset",
+ASSUME = ["window output buffer never overflows", "single producer", "IDLETIMEOUT: a delivery the watermark does not justify is accepted only after the source was idle for the timeout (wall-clock brackets); after such a flush the trace no longer judges lateness",
           "two on-time events of a key exactly one timeout apart may be in the same or in different sessions (half-open slot)",
           "late rows (older than the watermark on arrival) are outside C10's guarantee; only C02's rules apply to them"]
 
@@ -21,7 +21,8 @@ def run(tier):
                 ("session", dict(size=2, moo=1, al=2, maxts=6, maxev=4, cap=40000))]
         free = [("session", dict(size=2, moo=1, al=0, keys=2), 400, 40), ("session", dict(size=3, moo=3, al=0, keys=3), 300, 60),
                 ("session", dict(size=2, moo=0, al=0, keys=1), 200, 40), ("session", dict(size=4, moo=2, al=3, keys=2), 200, 50)]
-    return win.run_family("C10", tier, plan, free, ASSUME)
+    idle = [("session", dict(size=10, moo=2), 6 if tier == "quick" else 50)]      # IDLETIMEOUT: ties and stragglers keep a source alive
+    return win.run_family("C10", tier, plan, free, ASSUME, idle_plan=idle)
 
 
 if __name__ == "__main__":
